@@ -307,7 +307,11 @@ func (p *bprover) cmpFacts(b *ssa.BinOp, truth bool, at ssa.Instruction) (facts 
 	}
 	// facts must be about exact mathematical values: evaluate operands at the If's own block
 	x, y := p.lin(b.X, at, 0), p.lin(b.Y, at, 0)
-	op := b.Op
+	return cmpFactsLin(x, y, b.Op, truth)
+}
+
+// cmpFactsLin: the facts of `x op y` having the given truth, over linear forms.
+func cmpFactsLin(x, y lin, op token.Token, truth bool) (facts []lin, diseq []lin) {
 	if !truth {
 		switch op {
 		case token.LSS:
@@ -367,6 +371,14 @@ func (p *bprover) edgeFacts(b *ssa.BasicBlock) (facts []lin, diseq []lin) {
 			f, d := p.cmpFacts(x, truth, e.If)
 			facts = append(facts, f...)
 			diseq = append(diseq, d...)
+		case *ssa.Call:
+			// a package-private bool helper (`hasBytesAt(data,pos,size)`): on its true edge, the comparisons that hold
+			// whenever it answers true, instantiated with the call's arguments
+			if truth {
+				for _, hf := range p.helperTrueFacts(x, e.If) {
+					facts = append(facts, hf)
+				}
+			}
 		case *ssa.Extract:
 			// ok result of a proven decoder: 0 <= newpos <= len(data)
 			if call, isCall := x.Tuple.(*ssa.Call); isCall && truth {
@@ -671,6 +683,17 @@ func ruleC12(c *Ctx, r *Report) {
 					continue
 				}
 				nret++
+				// results handed through from a decoder whose post-condition is proven, on the same input: (_, next, …, ok)
+				// are that call's newpos and ok, so ok => 0<=next<=len(data) is the callee's post-condition
+				if okx, isEx := last.(*ssa.Extract); isEx {
+					if call, isCall := okx.Tuple.(*ssa.Call); isCall {
+						if k := call.Call.StaticCallee(); k != nil && posts[k] && okx.Index == k.Signature.Results().Len()-1 && len(call.Call.Args) >= 1 && call.Call.Args[0] == dataP {
+							if npx, isEx2 := ret.Results[1].(*ssa.Extract); isEx2 && npx.Tuple == okx.Tuple && npx.Index == 1 {
+								continue
+							}
+						}
+					}
+				}
 				np := p.lin(ret.Results[1], ret, 0)
 				if !p.prove(np, ret) || !p.prove(p.lenOf(dataP, ret, 0).addScaled(np, -1), ret) {
 					okAll = false
@@ -729,10 +752,28 @@ func ruleC09(c *Ctx, r *Report) {
 					return
 				}
 				k := call.Call.StaticCallee()
-				if k == nil || k.Name() != "Format" || k.Pkg == nil || k.Pkg.Pkg.Path() != "time" || len(call.Call.Args) != 2 {
+				isFormat := func(k *ssa.Function, cc *ssa.CallCommon) bool {
+					return k != nil && k.Name() == "Format" && k.Pkg != nil && k.Pkg.Pkg.Path() == "time" && len(cc.Args) == 2
+				}
+				layout := ssa.Value(nil)
+				if isFormat(k, &call.Call) {
+					layout = call.Call.Args[1]
+				} else if k != nil && c.InModule(k) && len(k.Blocks) > 0 && k.Object() != nil && !k.Object().Exported() && k.Signature.Results().Len() == 1 {
+					// a package-private helper that returns time.Format(<its layout parameter>) unchanged
+					if rets := returnsOf(k); len(rets) == 1 {
+						if fc, ok := stripValue(rets[0].Results[0]).(*ssa.Call); ok && isFormat(fc.Call.StaticCallee(), &fc.Call) {
+							for i, q := range k.Params {
+								if stripValue(fc.Call.Args[1]) == ssa.Value(q) && i < len(call.Call.Args) {
+									layout = call.Call.Args[i]
+								}
+							}
+						}
+					}
+				}
+				if layout == nil {
 					return
 				}
-				if s, ok := constString(call.Call.Args[1]); ok && s == "2006-01-02" {
+				if s, ok := constString(layout); ok && s == "2006-01-02" {
 					if !p.extraDone[call] {
 						p.extraDone[call] = true
 						for _, bb := range f.Blocks {
@@ -802,4 +843,144 @@ func ruleC33bd(c *Ctx, r *Report) {
 			}
 		}
 	}
+}
+
+// helperTrueFacts: for a call of a package-private bool function of the module, the linear facts (over the caller's
+// values) that hold whenever the function answers true. Recognised result shapes: one return whose value is a
+// comparison, or the phi of a `&&` chain (constant false on every edge but one); the facts are the comparisons on the
+// branch edges dominating the surviving edge plus the surviving comparison itself. Operands are translated with the
+// parameters replaced by the call's arguments; an operand that is not exact in the caller's context (a subtraction that
+// could wrap) makes that comparison unusable, never wrong.
+func (p *bprover) helperTrueFacts(call *ssa.Call, at ssa.Instruction) []lin {
+	h := call.Call.StaticCallee()
+	if h == nil || !p.c.InModule(h) || len(h.Blocks) == 0 || h.Object() == nil || h.Object().Exported() || h.Signature.Results().Len() != 1 || !isBoolType(h.Signature.Results().At(0).Type()) {
+		return nil
+	}
+	rets := returnsOf(h)
+	if len(rets) != 1 || len(h.Params) != len(call.Call.Args) {
+		return nil
+	}
+	type cond struct {
+		v     ssa.Value
+		truth bool
+	}
+	var conds []cond
+	addDominating := func(b *ssa.BasicBlock) {
+		for _, hb := range h.Blocks {
+			iff, ok := hb.Instrs[len(hb.Instrs)-1].(*ssa.If)
+			if !ok || hb.Succs[0] == hb.Succs[1] {
+				continue
+			}
+			for i := range hb.Succs {
+				if edgeDominates(h, hb, i, b) || (hb.Succs[i] == b && len(b.Preds) == 1) {
+					conds = append(conds, cond{iff.Cond, i == 0})
+				}
+			}
+		}
+	}
+	v := rets[0].Results[0]
+	switch x := v.(type) {
+	case *ssa.Phi:
+		surv := -1
+		for i, e := range x.Edges {
+			if b, isC := constBool(e); isC && !b {
+				continue
+			}
+			if surv >= 0 {
+				return nil
+			}
+			surv = i
+		}
+		if surv < 0 {
+			return nil
+		}
+		pred := x.Block().Preds[surv]
+		addDominating(pred)
+		// the edge pred -> phi block itself, when pred ends in an If
+		if iff, ok := pred.Instrs[len(pred.Instrs)-1].(*ssa.If); ok && pred.Succs[0] != pred.Succs[1] {
+			for i := range pred.Succs {
+				if pred.Succs[i] == x.Block() {
+					conds = append(conds, cond{iff.Cond, i == 0})
+				}
+			}
+		}
+		if b, isC := constBool(x.Edges[surv]); !isC || !b {
+			conds = append(conds, cond{x.Edges[surv], true})
+		}
+	default:
+		addDominating(rets[0].Block())
+		conds = append(conds, cond{v, true})
+	}
+	sub := map[ssa.Value]ssa.Value{}
+	for i, q := range h.Params {
+		sub[q] = call.Call.Args[i]
+	}
+	var tr func(v ssa.Value, depth int) (lin, bool)
+	tr = func(v ssa.Value, depth int) (lin, bool) {
+		if depth > 6 {
+			return lin{}, false
+		}
+		switch x := v.(type) {
+		case *ssa.Const:
+			if x.Value != nil {
+				if bi, ok := new(big.Int).SetString(x.Value.ExactString(), 10); ok {
+					return lin{k: bi, t: map[atomKey]int64{}}, true
+				}
+			}
+		case *ssa.Parameter:
+			if a, ok := sub[x]; ok {
+				if _, _, isInt := intInfo(a.Type()); isInt {
+					return p.lin(a, at, 0), true
+				}
+			}
+		case *ssa.Call:
+			if b, ok := x.Call.Value.(*ssa.Builtin); ok && b.Name() == "len" && len(x.Call.Args) == 1 {
+				if a, ok := sub[x.Call.Args[0]]; ok {
+					return p.lenOf(a, at, 0), true
+				}
+			}
+		case *ssa.BinOp:
+			if x.Op == token.ADD || x.Op == token.SUB {
+				a, ok1 := tr(x.X, depth+1)
+				b, ok2 := tr(x.Y, depth+1)
+				if ok1 && ok2 {
+					s := int64(1)
+					if x.Op == token.SUB {
+						s = -1
+					}
+					r := a.addScaled(b, s)
+					if p.inRange(r, x.Type(), at) {
+						return r, true
+					}
+				}
+			}
+		}
+		return lin{}, false
+	}
+	var out []lin
+	for _, cd := range conds {
+		cv, truth := cd.v, cd.truth
+		for {
+			if u, ok := cv.(*ssa.UnOp); ok && u.Op == token.NOT {
+				cv, truth = u.X, !truth
+				continue
+			}
+			break
+		}
+		b, ok := cv.(*ssa.BinOp)
+		if !ok {
+			continue
+		}
+		if _, _, isInt := intInfo(b.X.Type()); !isInt {
+			continue
+		}
+		x, ok1 := tr(b.X, 0)
+		y, ok2 := tr(b.Y, 0)
+		if !ok1 || !ok2 {
+			continue
+		}
+		f, _ := cmpFactsLin(x, y, b.Op, truth)
+		out = append(out, f...)
+	}
+	return out
 }
